@@ -140,7 +140,17 @@ func ApplyMetricsQuery(mQuery *structs.MetricsQuery, timeRange *dtu.MetricsTimeR
 			filteredTags = append(filteredTags, v)
 		}
 
-		mQuery.TagsFilters = filteredTags
+		numOtherKeys := 0
+		for _, present := range allTagKeys {
+			if present {
+				numOtherKeys++
+			}
+		}
+		if len(filteredTags) > 0 || numOtherKeys > 0 {
+			mQuery.TagsFilters = filteredTags
+		}
+		// else: `without (<every label>)`: dropping the ignored tags would leave no tag filter at all and
+		// the tags search would match nothing; keep them, getAggSeriesId strips them from the group id
 
 		for tkey, present := range allTagKeys {
 			if present {
